@@ -5,6 +5,8 @@
 package backtest
 
 import (
+	"sync"
+
 	"github.com/cinar/indicator/v2/asset"
 	"github.com/cinar/indicator/v2/helper"
 	"github.com/cinar/indicator/v2/strategy"
@@ -30,6 +32,10 @@ type DataStrategyResult struct {
 
 // DataReport is the bactest data report enablign programmatic access to the backtest results.
 type DataReport struct {
+	// mutex guards the results, as the backtest workers report
+	// at the same time.
+	mutex sync.Mutex
+
 	// Results are the backtest results for the assets.
 	Results map[string][]*DataStrategyResult
 }
@@ -48,6 +54,9 @@ func (*DataReport) Begin(_ []string, _ []strategy.Strategy) error {
 
 // AssetBegin is called when backtesting for the given asset begins.
 func (d *DataReport) AssetBegin(name string, strategies []strategy.Strategy) error {
+	d.mutex.Lock()
+	defer d.mutex.Unlock()
+
 	d.Results[name] = make([]*DataStrategyResult, 0, len(strategies))
 	return nil
 }
@@ -69,6 +78,9 @@ func (d *DataReport) Write(assetName string, currentStrategy strategy.Strategy, 
 		Action:       <-lastAction,
 		Transactions: transactions,
 	}
+
+	d.mutex.Lock()
+	defer d.mutex.Unlock()
 
 	d.Results[assetName] = append(d.Results[assetName], result)
 
